@@ -190,7 +190,9 @@ func genBatchReq(r *fw.Rng) *batchReq {
 		case kUCS2:
 			ch, u, per = 0x1f600, 4, 134
 		case kGB:
-			ch, u, per = 0x1f600, 4, 134
+			// four octets in GB18030: an astral character (four in UCS-2 as well) or a BMP character outside the
+			// two-octet GBK table (Thai, the replacement character: two in UCS-2, so UCS-2 still fits where GBK does not)
+			ch, u, per = rune(r.Pick(0x1f600, 0x0e01, 0x0e01, 0xfffd, 0x0627)), 4, 134
 		default:
 			ch = '['
 		}
